@@ -38,12 +38,12 @@ def run(ctx: RuleContext):
     m = ctx.model
     r = roles_for(m)
     cg = CallGraph(m)
-    res = run_flag_typestate(ctx, "C16.1", cg=cg)
+    res = ctx.sub(run_flag_typestate, ctx, "C16.1", cg=cg) or []
     ctx.counters["flag_functions"] = len(res)
-    ctx.floor("C16.1", "flag_functions", 2)
-    check_sibling_agreement(ctx, r)
-    check_errors(ctx, r)
-    check_label_template(ctx, r, cg)
+    ctx.sub(ctx.floor, "C16.1", "flag_functions", 1)
+    ctx.sub(check_sibling_agreement, ctx, r)
+    ctx.sub(check_errors, ctx, r)
+    ctx.sub(check_label_template, ctx, r, cg)
 
 
 # ------------------------------------------------------------------------ C16.2
